@@ -545,13 +545,21 @@ Definition kind_tag (k : xkind) : string :=
   | XKTime true _ _ => "AbsoluteTimeParameterType" | XKTime false _ _ => "RelativeTimeParameterType"
   end.
 
+(* scale and offset stand for a first order polynomial only: the exponents, sorted, are [1] or [0; 1] *)
+Definition linear_exps (ts : list (Z * Z)) : bool :=
+  match map snd ts with
+  | [1%Z] | [0%Z; 1%Z] | [1%Z; 0%Z] => true
+  | _ => false
+  end.
+
 Definition write_ptype (t : xptype) : velem :=
   match xt_kind t with
   | XKTime _ epoch ofrom =>
-      (* scale/offset attributes are taken from the default polynomial; the encoding itself is written as it is *)
+      (* scale/offset attributes are taken from a first order default polynomial; the encoding itself is written as it is *)
       let so := match xt_enc t with
                 | XNum ne => match xn_default ne with
                              | Some (XPoly ts) =>
+                                 if negb (linear_exps ts) then [] else
                                  (match List.find (fun ce => (snd ce =? 1)%Z) ts with Some ce => [("scale", AF (fst ce))] | None => [] end) ++
                                  (match List.find (fun ce => (snd ce =? 0)%Z) ts with Some ce => [("offset", AF (fst ce))] | None => [] end)
                              | _ => [] end
